@@ -52,6 +52,33 @@ struct Hint {
     opt: bool,
 }
 
+/// target forms: a named id `v3`, the wildcard `_`, a named wildcard `_w3`
+/// (the model knows only "binds x" / "binds nothing"; both wildcards are `_` in the request)
+#[derive(Clone, Debug, PartialEq)]
+enum T {
+    Id(u32),
+    Wild,
+    WildNamed(u32),
+}
+
+impl From<Option<u32>> for T {
+    fn from(x: Option<u32>) -> T {
+        match x {
+            Some(x) => T::Id(x),
+            None => T::Wild,
+        }
+    }
+}
+
+/// patterns of function arguments and match arms
+#[derive(Clone, Debug, PartialEq)]
+enum P {
+    B(T, Option<Hint>),
+    Lit(i64),
+    Tup(Vec<P>),
+}
+
+/// template convenience: the single-pattern arms of the first grid
 #[derive(Clone, Debug, PartialEq)]
 enum Pat {
     Wild(Option<Hint>),
@@ -59,7 +86,14 @@ enum Pat {
     Lit(i64),
 }
 
-type Binder = (Option<u32>, Option<Hint>);
+type Binder = (T, Option<Hint>);
+
+#[derive(Clone, Debug, PartialEq)]
+struct Arm {
+    alts: Vec<Vec<P>>, // `or` alternatives, each with one pattern per subject; empty = `else`
+    guard: Option<E>,
+    body: E,
+}
 
 #[derive(Clone, Debug, PartialEq)]
 enum E {
@@ -68,7 +102,9 @@ enum E {
     Add(Box<E>, Box<E>),
     Lt(Box<E>, Box<E>),
     TypeOf(Box<E>),
-    Let(Option<u32>, Option<Hint>, Box<E>),
+    Let(T, Option<Hint>, Box<E>),
+    LetTemps(Vec<Binder>, Vec<E>),
+    LetUnpack(Vec<Binder>, Box<E>),
     Seq(Box<E>, Box<E>),
     Emit(Box<E>),
     If(Box<E>, Box<E>, Box<E>),
@@ -76,8 +112,8 @@ enum E {
     Call(Box<E>, Vec<E>),
     Ret(Box<E>),
     Throw(Box<E>),
-    Try(Box<E>, Vec<(Option<u32>, Hint, E)>, Option<u32>, Box<E>),
-    Match(Box<E>, Vec<(Pat, E)>),
+    Try(Box<E>, Vec<(T, Hint, E)>, T, Box<E>),
+    Match(Vec<E>, Vec<Arm>),
 }
 
 #[derive(Clone, Debug, PartialEq)]
@@ -94,7 +130,7 @@ enum Body {
 
 #[derive(Clone, Debug, PartialEq)]
 struct FunDef {
-    params: Vec<(u32, Option<Hint>)>,
+    params: Vec<P>,
     out: Option<Hint>,
     body: Body,
 }
@@ -103,6 +139,36 @@ struct FunDef {
 struct Prog {
     funs: Vec<FunDef>,
     main: E,
+}
+
+// constructors used by the first grid's templates (named ids and `_` only)
+fn elet(x: Option<u32>, h: Option<Hint>, e: Box<E>) -> E {
+    E::Let(x.into(), h, e)
+}
+fn efor(bs: Vec<(Option<u32>, Option<Hint>)>, it: Box<E>, body: Box<E>) -> E {
+    E::For(bs.into_iter().map(|(x, h)| (x.into(), h)).collect(), it, body)
+}
+fn etry(body: Box<E>, typed: Vec<(Option<u32>, Hint, E)>, x: Option<u32>, fin: Box<E>) -> E {
+    E::Try(body, typed.into_iter().map(|(y, h, b)| (y.into(), h, b)).collect(), x.into(), fin)
+}
+fn ematch(scrut: Box<E>, arms: Vec<(Pat, E)>) -> E {
+    E::Match(
+        vec![*scrut],
+        arms.into_iter()
+            .map(|(p, body)| Arm {
+                alts: vec![vec![match p {
+                    Pat::Wild(h) => P::B(T::Wild, h),
+                    Pat::Bind(x, h) => P::B(T::Id(x), h),
+                    Pat::Lit(n) => P::Lit(n),
+                }]],
+                guard: None,
+                body,
+            })
+            .collect(),
+    )
+}
+fn ps(v: Vec<(u32, Option<Hint>)>) -> Vec<P> {
+    v.into_iter().map(|(x, h)| P::B(T::Id(x), h)).collect()
 }
 
 fn bx(e: E) -> Box<E> {
@@ -180,18 +246,21 @@ fn sx_hint_opt(h: &Option<Hint>) -> String {
         Some(h) => sx_hint(h),
     }
 }
-fn sx_var_opt(x: &Option<u32>) -> String {
+fn sx_t(x: &T) -> String {
     match x {
-        None => "_".into(),
-        Some(x) => x.to_string(),
+        T::Id(x) => x.to_string(),
+        T::Wild | T::WildNamed(_) => "_".into(),
     }
 }
-fn sx_pat(p: &Pat) -> String {
+fn sx_p(p: &P) -> String {
     match p {
-        Pat::Wild(h) => format!("(pw {})", sx_hint_opt(h)),
-        Pat::Bind(x, h) => format!("(pb {} {})", x, sx_hint_opt(h)),
-        Pat::Lit(n) => format!("(pl {})", n),
+        P::B(x, h) => format!("(pb {} {})", sx_t(x), sx_hint_opt(h)),
+        P::Lit(n) => format!("(pl {})", n),
+        P::Tup(ps) => format!("(pt{})", ps.iter().map(|p| format!(" {}", sx_p(p))).collect::<String>()),
     }
+}
+fn sx_binders(bs: &[Binder]) -> String {
+    bs.iter().map(|(x, h)| format!("(b {} {})", sx_t(x), sx_hint_opt(h))).collect::<Vec<_>>().join(" ")
 }
 
 fn sx_e(e: &E) -> String {
@@ -201,36 +270,40 @@ fn sx_e(e: &E) -> String {
         E::Add(a, b) => format!("(add {} {})", sx_e(a), sx_e(b)),
         E::Lt(a, b) => format!("(lt {} {})", sx_e(a), sx_e(b)),
         E::TypeOf(a) => format!("(ty {})", sx_e(a)),
-        E::Let(x, h, a) => format!("(let {} {} {})", sx_var_opt(x), sx_hint_opt(h), sx_e(a)),
+        E::Let(x, h, a) => format!("(let {} {} {})", sx_t(x), sx_hint_opt(h), sx_e(a)),
+        E::LetTemps(bs, es) => format!("(lett ({}){})", sx_binders(bs), es.iter().map(|a| format!(" {}", sx_e(a))).collect::<String>()),
+        E::LetUnpack(bs, a) => format!("(letu ({}) {})", sx_binders(bs), sx_e(a)),
         E::Seq(a, b) => format!("(seq {} {})", sx_e(a), sx_e(b)),
         E::Emit(a) => format!("(emit {})", sx_e(a)),
         E::If(c, t, f) => format!("(if {} {} {})", sx_e(c), sx_e(t), sx_e(f)),
-        E::For(bs, it, body) => format!(
-            "(for ({}) {} {})",
-            bs.iter().map(|(x, h)| format!("(b {} {})", sx_var_opt(x), sx_hint_opt(h))).collect::<Vec<_>>().join(" "),
-            sx_e(it),
-            sx_e(body)
-        ),
+        E::For(bs, it, body) => format!("(for ({}) {} {})", sx_binders(bs), sx_e(it), sx_e(body)),
         E::Call(f, args) => format!("(call {}{})", sx_e(f), args.iter().map(|a| format!(" {}", sx_e(a))).collect::<String>()),
         E::Ret(a) => format!("(ret {})", sx_e(a)),
         E::Throw(a) => format!("(throw {})", sx_e(a)),
         E::Try(body, typed, x, fin) => format!(
             "(try {} ({}) {} {})",
             sx_e(body),
-            typed.iter().map(|(y, h, b)| format!("(c {} {} {})", sx_var_opt(y), sx_hint(h), sx_e(b))).collect::<Vec<_>>().join(" "),
-            sx_var_opt(x),
+            typed.iter().map(|(y, h, b)| format!("(c {} {} {})", sx_t(y), sx_hint(h), sx_e(b))).collect::<Vec<_>>().join(" "),
+            sx_t(x),
             sx_e(fin)
         ),
-        E::Match(s, arms) => format!(
-            "(match {}{})",
-            sx_e(s),
-            arms.iter().map(|(p, b)| format!(" (a {} {})", sx_pat(p), sx_e(b))).collect::<String>()
+        E::Match(ss, arms) => format!(
+            "(match ({}){})",
+            ss.iter().map(sx_e).collect::<Vec<_>>().join(" "),
+            arms.iter()
+                .map(|a| format!(
+                    " (arm ({}) {} {})",
+                    a.alts.iter().map(|alt| format!("({})", alt.iter().map(sx_p).collect::<Vec<_>>().join(" "))).collect::<Vec<_>>().join(" "),
+                    a.guard.as_ref().map_or("-".to_string(), sx_e),
+                    sx_e(&a.body)
+                ))
+                .collect::<String>()
         ),
     }
 }
 
 fn sx_fun(f: &FunDef) -> String {
-    let ps = f.params.iter().map(|(x, h)| format!("({} {})", x, sx_hint_opt(h))).collect::<Vec<_>>().join(" ");
+    let ps = f.params.iter().map(sx_p).collect::<Vec<_>>().join(" ");
     let body = match &f.body {
         Body::Plain(e) => format!("(plain {})", sx_e(e)),
         Body::Gen(ss) => format!(
@@ -333,14 +406,25 @@ fn r_v(v: &V) -> String {
 fn r_hint(h: &Hint) -> String {
     format!("{}{}", h.name, if h.opt { "?" } else { "" })
 }
-fn r_binder(x: &Option<u32>, h: &Option<Hint>) -> String {
+fn r_binder(x: &T, h: &Option<Hint>) -> String {
     let id = match x {
-        Some(x) => format!("v{}", x),
-        None => "_".to_string(),
+        T::Id(x) => format!("v{}", x),
+        T::Wild => "_".to_string(),
+        T::WildNamed(x) => format!("_w{}", x),
     };
     match h {
         Some(h) => format!("{}: {}", id, r_hint(h)),
         None => id,
+    }
+}
+fn r_p(p: &P) -> String {
+    match p {
+        P::B(x, h) => r_binder(x, h),
+        P::Lit(n) => n.to_string(),
+        P::Tup(ps) => match ps.len() {
+            1 => format!("({},)", r_p(&ps[0])),
+            _ => format!("({})", ps.iter().map(r_p).collect::<Vec<_>>().join(", ")),
+        },
     }
 }
 
@@ -395,21 +479,59 @@ fn expr_lines(e: &E, ind: usize) -> Option<Vec<String>> {
             v.extend(block(body, ind + 2)?);
             Some(v)
         }
-        E::Match(s, arms) => {
-            if arms.is_empty() {
+        E::Match(ss, arms) => {
+            if arms.is_empty() || ss.is_empty() {
                 return None;
             }
-            let mut v = vec![format!("match {}", inline(s)?)];
-            for (p, body) in arms {
-                let ps = match p {
-                    Pat::Wild(h) => r_binder(&None, h),
-                    Pat::Bind(x, h) => r_binder(&Some(*x), h),
-                    Pat::Lit(n) => n.to_string(),
+            let mut subj = vec![];
+            for x in ss {
+                subj.push(inline(x)?);
+            }
+            let mut v = vec![format!("match {}", subj.join(", "))];
+            for arm in arms {
+                let mut head = if arm.alts.is_empty() {
+                    if arm.guard.is_some() {
+                        return None;
+                    }
+                    "else".to_string()
+                } else {
+                    let alts: Vec<String> = arm
+                        .alts
+                        .iter()
+                        .map(|alt| alt.iter().map(r_p).collect::<Vec<_>>().join(", "))
+                        .collect();
+                    alts.join(" or ")
                 };
-                v.push(format!("{}{} then", pad(ind + 2), ps));
-                v.extend(block(body, ind + 4)?);
+                if let Some(g) = &arm.guard {
+                    head.push_str(&format!(" if {}", inline(g)?));
+                }
+                if !arm.alts.is_empty() {
+                    head.push_str(" then");
+                }
+                v.push(format!("{}{}", pad(ind + 2), head));
+                v.extend(block(&arm.body, ind + 4)?);
             }
             Some(v)
+        }
+        E::LetTemps(bs, es) => {
+            if bs.is_empty() || bs.len() != es.len() {
+                return None;
+            }
+            let hinted = bs.iter().any(|(_, h)| h.is_some());
+            let lhs = bs.iter().map(|(x, h)| r_binder(x, h)).collect::<Vec<_>>().join(", ");
+            let mut rhs = vec![];
+            for x in es {
+                rhs.push(inline(x)?);
+            }
+            Some(vec![format!("{}{} = {}", if hinted { "let " } else { "" }, lhs, rhs.join(", "))])
+        }
+        E::LetUnpack(bs, e) => {
+            if bs.len() < 2 {
+                return None;
+            }
+            let hinted = bs.iter().any(|(_, h)| h.is_some());
+            let lhs = bs.iter().map(|(x, h)| r_binder(x, h)).collect::<Vec<_>>().join(", ");
+            Some(vec![format!("{}{} = {}", if hinted { "let " } else { "" }, lhs, inline(e)?)])
         }
         E::Try(body, typed, x, fin) => {
             let mut v = vec!["try".to_string()];
@@ -424,12 +546,10 @@ fn expr_lines(e: &E, ind: usize) -> Option<Vec<String>> {
         }
         E::Let(x, h, rhs) => {
             let head = match (x, h) {
-                (Some(x), None) => format!("v{} = ", x),
+                (T::Id(x), None) => format!("v{} = ", x),
+                (_, None) => return None,
                 (_, _) => format!("let {} = ", r_binder(x, h)),
             };
-            if x.is_none() && h.is_none() {
-                return None;
-            }
             let mut r = match inline(rhs) {
                 Some(s) => vec![s],
                 None => match &**rhs {
@@ -477,7 +597,7 @@ fn block(e: &E, ind: usize) -> Option<Vec<String>> {
 fn render(p: &Prog) -> Option<String> {
     let mut lines = vec![];
     for (i, f) in p.funs.iter().enumerate() {
-        let ps = f.params.iter().map(|(x, h)| r_binder(&Some(*x), h)).collect::<Vec<_>>().join(", ");
+        let ps = f.params.iter().map(r_p).collect::<Vec<_>>().join(", ");
         let out = match &f.out {
             Some(h) => format!(" -> {}", r_hint(h)),
             None => String::new(),
@@ -823,7 +943,11 @@ fn has_try(e: &E) -> bool {
         E::If(a, b, c) => has_try(a) || has_try(b) || has_try(c),
         E::For(_, a, b) => has_try(a) || has_try(b),
         E::Call(f, args) => has_try(f) || args.iter().any(has_try),
-        E::Match(s, arms) => has_try(s) || arms.iter().any(|(_, b)| has_try(b)),
+        E::LetTemps(_, es) => es.iter().any(has_try),
+        E::LetUnpack(_, a) => has_try(a),
+        E::Match(ss, arms) => {
+            ss.iter().any(has_try) || arms.iter().any(|a| has_try(&a.body) || a.guard.as_ref().is_some_and(has_try))
+        }
     }
 }
 
@@ -1180,8 +1304,8 @@ fn chain_values(max: usize) -> Vec<(String, V)> {
 /// function table shared by the grid templates: f0 plain identity-ish function, f1 zero-arg generator
 fn base_funs() -> Vec<FunDef> {
     vec![
-        FunDef { params: vec![(0, None)], out: None, body: Body::Plain(E::Var(0)) },
-        FunDef { params: vec![], out: None, body: Body::Gen(vec![GStmt::Yld(lit_i(1)), GStmt::Yld(lit_i(2))]) },
+        FunDef { params: ps(vec![(0, None)]), out: None, body: Body::Plain(E::Var(0)) },
+        FunDef { params: ps(vec![]), out: None, body: Body::Gen(vec![GStmt::Yld(lit_i(1)), GStmt::Yld(lit_i(2))]) },
     ]
 }
 
@@ -1200,53 +1324,53 @@ fn template(pos: &str, h: &Hint, x: &V) -> Prog {
     let xv = E::Lit(x.clone());
     let em = |n: i64| E::Emit(bx(lit_i(n)));
     let main = match pos {
-        "let" => seq(vec![em(1), E::Let(Some(0), hs, bx(xv)), em(2), E::TypeOf(bx(E::Var(0)))]),
-        "let-ignored" => seq(vec![E::Let(None, hs, bx(xv)), em(2)]),
+        "let" => seq(vec![em(1), elet(Some(0), hs, bx(xv)), em(2), E::TypeOf(bx(E::Var(0)))]),
+        "let-ignored" => seq(vec![elet(None, hs, bx(xv)), em(2)]),
         // the value is written to the variable before the assertion runs
         "let-in-try" => seq(vec![
-            E::Let(Some(0), None, bx(lit_i(0))),
-            E::Try(bx(seq(vec![E::Let(Some(0), hs, bx(xv)), em(1)])), vec![], Some(1), bx(E::Emit(bx(E::Var(1))))),
+            elet(Some(0), None, bx(lit_i(0))),
+            etry(bx(seq(vec![elet(Some(0), hs, bx(xv)), em(1)])), vec![], Some(1), bx(E::Emit(bx(E::Var(1))))),
             E::Emit(bx(E::TypeOf(bx(E::Var(0))))),
             E::Var(0),
         ]),
-        "let-rebind" => seq(vec![E::Let(Some(0), None, bx(xv)), E::Let(Some(1), hs, bx(E::Var(0))), E::Var(1)]),
-        "for1" => seq(vec![E::For(
+        "let-rebind" => seq(vec![elet(Some(0), None, bx(xv)), elet(Some(1), hs, bx(E::Var(0))), E::Var(1)]),
+        "for1" => seq(vec![efor(
             vec![(Some(0), hs)],
             bx(E::Lit(V::List(vec![x.clone()]))),
             bx(seq(vec![em(1), E::TypeOf(bx(E::Var(0)))])),
         )]),
-        "for1-ignored" => E::For(vec![(None, hs)], bx(E::Lit(V::Tuple(vec![x.clone(), x.clone()]))), bx(em(1))),
-        "for2-first" => E::For(
+        "for1-ignored" => efor(vec![(None, hs)], bx(E::Lit(V::Tuple(vec![x.clone(), x.clone()]))), bx(em(1))),
+        "for2-first" => efor(
             vec![(Some(0), hs), (Some(1), None)],
             bx(E::Lit(V::List(vec![V::Tuple(vec![x.clone(), V::Int(5)])]))),
             bx(seq(vec![E::Emit(bx(E::Var(1))), E::TypeOf(bx(E::Var(0)))])),
         ),
-        "for2-second" => E::For(
+        "for2-second" => efor(
             vec![(Some(0), Some(hint("Number", false))), (None, hs)],
             bx(E::Lit(V::Tuple(vec![V::List(vec![V::Int(5), x.clone()])]))),
             bx(E::Emit(bx(E::Var(0)))),
         ),
         // the hint is checked on every iteration: first item passes `Number`-or-h, second is x
-        "for-second-iteration" => E::For(
+        "for-second-iteration" => efor(
             vec![(Some(0), hs)],
             bx(E::Lit(V::List(vec![x.clone(), V::Int(3), x.clone()]))),
             bx(E::Emit(bx(E::TypeOf(bx(E::Var(0)))))),
         ),
         "arg" => {
-            funs.push(FunDef { params: vec![(0, hs)], out: None, body: Body::Plain(seq(vec![em(1), E::TypeOf(bx(E::Var(0)))])) });
+            funs.push(FunDef { params: ps(vec![(0, hs)]), out: None, body: Body::Plain(seq(vec![em(1), E::TypeOf(bx(E::Var(0)))])) });
             seq(vec![em(0), E::Call(bx(E::Lit(V::Fn(2))), vec![xv])])
         }
         "arg-second" => {
             funs.push(FunDef {
-                params: vec![(0, Some(hint("Any", false))), (1, hs), (2, Some(hint("Number", true)))],
+                params: ps(vec![(0, Some(hint("Any", false))), (1, hs), (2, Some(hint("Number", true)))]),
                 out: None,
                 body: Body::Plain(seq(vec![em(1), E::Var(1)])),
             });
             E::Call(bx(E::Lit(V::Fn(2))), vec![lit_i(1), xv, E::Lit(V::Null)])
         }
         "arg-caught" => {
-            funs.push(FunDef { params: vec![(0, hs)], out: None, body: Body::Plain(seq(vec![em(1), lit_i(9)])) });
-            E::Try(
+            funs.push(FunDef { params: ps(vec![(0, hs)]), out: None, body: Body::Plain(seq(vec![em(1), lit_i(9)])) });
+            etry(
                 bx(E::Call(bx(E::Lit(V::Fn(2))), vec![xv])),
                 vec![(Some(1), hint("String", false), seq(vec![E::Emit(bx(E::Var(1))), lit_i(10)]))],
                 Some(2),
@@ -1254,44 +1378,44 @@ fn template(pos: &str, h: &Hint, x: &V) -> Prog {
             )
         }
         "return-implicit" => {
-            funs.push(FunDef { params: vec![(0, None)], out: hs, body: Body::Plain(seq(vec![em(1), E::Var(0)])) });
-            seq(vec![E::Let(Some(5), None, bx(E::Call(bx(E::Lit(V::Fn(2))), vec![xv]))), em(2), E::TypeOf(bx(E::Var(5)))])
+            funs.push(FunDef { params: ps(vec![(0, None)]), out: hs, body: Body::Plain(seq(vec![em(1), E::Var(0)])) });
+            seq(vec![elet(Some(5), None, bx(E::Call(bx(E::Lit(V::Fn(2))), vec![xv]))), em(2), E::TypeOf(bx(E::Var(5)))])
         }
         "return-explicit" => {
             funs.push(FunDef {
-                params: vec![(0, None)],
+                params: ps(vec![(0, None)]),
                 out: hs,
                 body: Body::Plain(seq(vec![em(1), E::Ret(bx(E::Var(0))), em(3)])),
             });
-            seq(vec![E::Let(Some(5), None, bx(E::Call(bx(E::Lit(V::Fn(2))), vec![xv]))), em(2), E::TypeOf(bx(E::Var(5)))])
+            seq(vec![elet(Some(5), None, bx(E::Call(bx(E::Lit(V::Fn(2))), vec![xv]))), em(2), E::TypeOf(bx(E::Var(5)))])
         }
         "return-in-loop" => {
             funs.push(FunDef {
-                params: vec![(0, None)],
+                params: ps(vec![(0, None)]),
                 out: hs,
                 body: Body::Plain(seq(vec![
-                    E::For(vec![(Some(1), None)], bx(E::Lit(V::Range(0, 3))), bx(seq(vec![E::Emit(bx(E::Var(1))), E::Ret(bx(E::Var(0)))]))),
+                    efor(vec![(Some(1), None)], bx(E::Lit(V::Range(0, 3))), bx(seq(vec![E::Emit(bx(E::Var(1))), E::Ret(bx(E::Var(0)))]))),
                     lit_i(0),
                 ])),
             });
-            seq(vec![E::Let(Some(5), None, bx(E::Call(bx(E::Lit(V::Fn(2))), vec![xv]))), E::TypeOf(bx(E::Var(5)))])
+            seq(vec![elet(Some(5), None, bx(E::Call(bx(E::Lit(V::Fn(2))), vec![xv]))), E::TypeOf(bx(E::Var(5)))])
         }
         // an `if` without a taken branch / a loop that never runs yields null, which is then checked
         "return-null-fallthrough" => {
             funs.push(FunDef {
-                params: vec![(0, None)],
+                params: ps(vec![(0, None)]),
                 out: hs,
-                body: Body::Plain(E::For(vec![(Some(1), None)], bx(E::Lit(V::List(vec![]))), bx(E::Var(0)))),
+                body: Body::Plain(efor(vec![(Some(1), None)], bx(E::Lit(V::List(vec![]))), bx(E::Var(0)))),
             });
-            seq(vec![E::Let(Some(5), None, bx(E::Call(bx(E::Lit(V::Fn(2))), vec![xv]))), E::TypeOf(bx(E::Var(5)))])
+            seq(vec![elet(Some(5), None, bx(E::Call(bx(E::Lit(V::Fn(2))), vec![xv]))), E::TypeOf(bx(E::Var(5)))])
         }
         "yield" => {
             funs.push(FunDef {
-                params: vec![(0, None)],
+                params: ps(vec![(0, None)]),
                 out: hs,
                 body: Body::Gen(vec![GStmt::Exec(em(1)), GStmt::Yld(E::Var(0)), GStmt::Exec(em(3))]),
             });
-            E::For(
+            efor(
                 vec![(Some(1), None)],
                 bx(E::Call(bx(E::Lit(V::GenFn(2))), vec![xv])),
                 bx(seq(vec![em(2), E::Emit(bx(E::TypeOf(bx(E::Var(1)))))])),
@@ -1299,12 +1423,12 @@ fn template(pos: &str, h: &Hint, x: &V) -> Prog {
         }
         "yield-second" => {
             funs.push(FunDef {
-                params: vec![(0, None)],
+                params: ps(vec![(0, None)]),
                 out: hs,
                 body: Body::Gen(vec![GStmt::Yld(E::Var(0)), GStmt::Exec(em(1)), GStmt::Yld(lit_i(4)), GStmt::Yld(E::Var(0))]),
             });
-            E::Try(
-                bx(E::For(
+            etry(
+                bx(efor(
                     vec![(Some(1), None)],
                     bx(E::Call(bx(E::Lit(V::GenFn(2))), vec![xv])),
                     bx(E::Emit(bx(E::TypeOf(bx(E::Var(1)))))),
@@ -1316,28 +1440,28 @@ fn template(pos: &str, h: &Hint, x: &V) -> Prog {
         }
         // argument hints of a generator are asserted on the first resumption, not at the call
         "gen-arg" => {
-            funs.push(FunDef { params: vec![(0, hs)], out: None, body: Body::Gen(vec![GStmt::Exec(em(2)), GStmt::Yld(lit_i(1))]) });
+            funs.push(FunDef { params: ps(vec![(0, hs)]), out: None, body: Body::Gen(vec![GStmt::Exec(em(2)), GStmt::Yld(lit_i(1))]) });
             seq(vec![
-                E::Let(Some(5), None, bx(E::Call(bx(E::Lit(V::GenFn(2))), vec![xv]))),
+                elet(Some(5), None, bx(E::Call(bx(E::Lit(V::GenFn(2))), vec![xv]))),
                 em(1),
-                E::For(vec![(Some(1), None)], bx(E::Var(5)), bx(em(3))),
+                efor(vec![(Some(1), None)], bx(E::Var(5)), bx(em(3))),
             ])
         }
         // `return` inside a generator is not checked against the output hint
         "gen-return-unchecked" => {
             funs.push(FunDef {
-                params: vec![(0, None)],
+                params: ps(vec![(0, None)]),
                 out: hs,
                 body: Body::Gen(vec![GStmt::Exec(em(1)), GStmt::Exec(E::Ret(bx(E::Var(0)))), GStmt::Yld(E::Var(0))]),
             });
-            seq(vec![E::For(vec![(Some(1), None)], bx(E::Call(bx(E::Lit(V::GenFn(2))), vec![xv])), bx(em(2))), em(3)])
+            seq(vec![efor(vec![(Some(1), None)], bx(E::Call(bx(E::Lit(V::GenFn(2))), vec![xv])), bx(em(2))), em(3)])
         }
         "match-bind" => seq(vec![
-            E::Let(Some(0), None, bx(lit_i(0))),
-            E::Let(
+            elet(Some(0), None, bx(lit_i(0))),
+            elet(
                 Some(9),
                 None,
-                bx(E::Match(
+                bx(ematch(
                     bx(xv),
                     vec![
                         (Pat::Bind(0, hs), seq(vec![em(10), lit_s("hit")])),
@@ -1349,8 +1473,8 @@ fn template(pos: &str, h: &Hint, x: &V) -> Prog {
             E::Emit(bx(E::TypeOf(bx(E::Var(0))))),
             E::Var(9),
         ]),
-        "match-wild" => E::Match(bx(xv), vec![(Pat::Wild(hs), seq(vec![em(10), lit_s("hit")]))]),
-        "match-second-arm" => E::Match(
+        "match-wild" => ematch(bx(xv), vec![(Pat::Wild(hs), seq(vec![em(10), lit_s("hit")]))]),
+        "match-second-arm" => ematch(
             bx(xv),
             vec![
                 (Pat::Bind(1, Some(hint("Qux", false))), em(10)),
@@ -1359,17 +1483,17 @@ fn template(pos: &str, h: &Hint, x: &V) -> Prog {
                 (Pat::Wild(Some(hint("Any", false))), em(13)),
             ],
         ),
-        "match-bind-falls-to-untyped" => E::Match(
+        "match-bind-falls-to-untyped" => ematch(
             bx(xv),
             vec![(Pat::Wild(hs), em(10)), (Pat::Bind(3, None), seq(vec![em(11), E::TypeOf(bx(E::Var(3)))]))],
         ),
-        "catch" => E::Try(
+        "catch" => etry(
             bx(seq(vec![em(1), E::Throw(bx(xv)), em(2)])),
             vec![(Some(0), h.clone(), seq(vec![em(10), E::TypeOf(bx(E::Var(0)))]))],
             Some(1),
             bx(seq(vec![em(11), E::TypeOf(bx(E::Var(1)))])),
         ),
-        "catch-second" => E::Try(
+        "catch-second" => etry(
             bx(E::Throw(bx(xv))),
             vec![
                 (Some(0), hint("Qux", true), em(10)),
@@ -1380,17 +1504,17 @@ fn template(pos: &str, h: &Hint, x: &V) -> Prog {
             bx(em(13)),
         ),
         // a failed assertion arrives in `catch` as its message string
-        "catch-type-error-message" => E::Try(
-            bx(E::Let(Some(0), hs, bx(xv))),
+        "catch-type-error-message" => etry(
+            bx(elet(Some(0), hs, bx(xv))),
             vec![(Some(1), hint("Number", false), em(10)), (Some(1), hint("String", false), seq(vec![E::Emit(bx(E::Var(1))), lit_i(1)]))],
             Some(2),
             bx(em(12)),
         ),
         // a failed `yield` assertion reaches the consumer unchanged; caught, it is its message string
         "yield-failure-caught-typed" => {
-            funs.push(FunDef { params: vec![(0, None)], out: hs, body: Body::Gen(vec![GStmt::Yld(E::Var(0)), GStmt::Exec(em(1))]) });
-            E::Try(
-                bx(E::For(vec![(Some(1), None)], bx(E::Call(bx(E::Lit(V::GenFn(2))), vec![xv])), bx(em(2)))),
+            funs.push(FunDef { params: ps(vec![(0, None)]), out: hs, body: Body::Gen(vec![GStmt::Yld(E::Var(0)), GStmt::Exec(em(1))]) });
+            etry(
+                bx(efor(vec![(Some(1), None)], bx(E::Call(bx(E::Lit(V::GenFn(2))), vec![xv])), bx(em(2)))),
                 vec![(Some(2), hint("Number", false), em(10)), (Some(2), hint("String", false), seq(vec![E::Emit(bx(E::Var(2))), em(11)]))],
                 Some(3),
                 bx(em(12)),
@@ -1398,24 +1522,351 @@ fn template(pos: &str, h: &Hint, x: &V) -> Prog {
         }
         // a value thrown inside a generator and caught by the consumer with a typed catch
         "throw-through-generator" => {
-            funs.push(FunDef { params: vec![(0, None)], out: None, body: Body::Gen(vec![GStmt::Exec(E::Throw(bx(E::Var(0)))), GStmt::Yld(lit_i(1))]) });
-            E::Try(
-                bx(E::For(vec![(Some(1), None)], bx(E::Call(bx(E::Lit(V::GenFn(2))), vec![xv])), bx(em(2)))),
+            funs.push(FunDef { params: ps(vec![(0, None)]), out: None, body: Body::Gen(vec![GStmt::Exec(E::Throw(bx(E::Var(0)))), GStmt::Yld(lit_i(1))]) });
+            etry(
+                bx(efor(vec![(Some(1), None)], bx(E::Call(bx(E::Lit(V::GenFn(2))), vec![xv])), bx(em(2)))),
                 vec![(Some(2), h.clone(), seq(vec![em(10), E::TypeOf(bx(E::Var(2)))]))],
                 Some(3),
                 bx(seq(vec![em(11), E::TypeOf(bx(E::Var(3)))])),
             )
         }
         "nested-call-arg-and-return" => {
-            funs.push(FunDef { params: vec![(0, hs.clone())], out: hs.clone(), body: Body::Plain(seq(vec![em(1), E::Var(0)])) });
+            funs.push(FunDef { params: ps(vec![(0, hs.clone())]), out: hs.clone(), body: Body::Plain(seq(vec![em(1), E::Var(0)])) });
             funs.push(FunDef {
-                params: vec![(0, None)],
+                params: ps(vec![(0, None)]),
                 out: Some(hint("Any", false)),
                 body: Body::Plain(seq(vec![em(2), E::Call(bx(E::Lit(V::Fn(2))), vec![E::Var(0)])])),
             });
-            seq(vec![E::Let(Some(1), hs, bx(E::Call(bx(E::Lit(V::Fn(3))), vec![xv]))), E::TypeOf(bx(E::Var(1)))])
+            seq(vec![elet(Some(1), hs, bx(E::Call(bx(E::Lit(V::Fn(3))), vec![xv]))), E::TypeOf(bx(E::Var(1)))])
         }
         other => panic!("unknown position {}", other),
+    };
+    Prog { funs, main }
+}
+
+// ------------------------------------------------------------------------------------------------
+// second grid: every target form (named id, `_`, `_name`) at every position that takes a hint
+// ------------------------------------------------------------------------------------------------
+
+fn form_t(form: &str) -> T {
+    match form {
+        "id" => T::Id(7),
+        "wild" => T::Wild,
+        _ => T::WildNamed(7),
+    }
+}
+
+/// `emit koto.type(v)` for every named target (what each target received is the observable)
+fn emit_types(ts: &[&T]) -> Vec<E> {
+    ts.iter()
+        .filter_map(|t| match t {
+            T::Id(x) => Some(E::Emit(bx(E::TypeOf(bx(E::Var(*x)))))),
+            _ => None,
+        })
+        .collect()
+}
+
+fn form_positions() -> Vec<String> {
+    let mut v: Vec<String> = vec![];
+    let forms = ["id", "wild", "wildn"];
+    for rhs in ["temps", "list", "tuple", "iter", "gen", "range"] {
+        for idx in 0..3 {
+            if idx == 2 && rhs != "list" && rhs != "temps" {
+                continue;
+            }
+            for f in forms {
+                v.push(format!("multi:{}:{}:{}", rhs, idx, f));
+            }
+        }
+    }
+    v.push("multi-short:list:wild".into());
+    v.push("let:wildn".into());
+    v.push("for1:wildn".into());
+    for f in ["wild", "wildn"] {
+        v.push(format!("for2-first:{}", f));
+    }
+    v.push("for2-second:wildn".into());
+    for f in forms {
+        v.push(format!("for3-middle:{}", f));
+    }
+    for f in ["wild", "wildn"] {
+        v.push(format!("arg:{}", f));
+    }
+    for f in forms {
+        v.push(format!("arg-nested-first:{}", f));
+        v.push(format!("arg-nested-second:{}", f));
+        v.push(format!("arg-nested-deep:{}", f));
+    }
+    v.push("gen-arg:wild".into());
+    v.push("gen-arg-nested:wildn".into());
+    for f in ["wild", "wildn"] {
+        v.push(format!("catch-first:{}", f));
+    }
+    v.push("match:wildn".into());
+    for f in forms {
+        for p in 0..3 {
+            v.push(format!("match-or:{}:{}", p, f));
+        }
+        for alt in 0..2 {
+            for sub in 0..2 {
+                v.push(format!("match-multi:{}:{}:{}", alt, sub, f));
+            }
+        }
+        v.push(format!("match-multi-pairs:{}", f));
+        v.push(format!("match-nested-tuple:{}", f));
+        v.push(format!("match-nested-list:{}", f));
+        v.push(format!("match-nested-deep:{}", f));
+        v.push(format!("match-nested-or:{}", f));
+        v.push(format!("match-or-guard:{}", f));
+    }
+    v.push("match-nested-size".into());
+    for f in ["id", "wild"] {
+        v.push(format!("match-guard-true:{}", f));
+        v.push(format!("match-guard-false:{}", f));
+    }
+    v
+}
+
+fn form_template(pos: &str, h: &Hint, x: &V) -> Prog {
+    let mut funs = base_funs();
+    let hs = Some(h.clone());
+    let xv = E::Lit(x.clone());
+    let em = |n: i64| E::Emit(bx(lit_i(n)));
+    let parts: Vec<&str> = pos.split(':').collect();
+    let form = *parts.last().unwrap();
+    let t = form_t(form);
+    let id = |n: u32| T::Id(n);
+    let arm = |alts: Vec<Vec<P>>, guard: Option<E>, body: E| Arm { alts, guard, body };
+    let pb = |t: T, h: Option<Hint>| P::B(t, h);
+    let main = match parts[0] {
+        "multi" => {
+            let rhs = parts[1];
+            let idx: usize = parts[2].parse().unwrap();
+            let mut targets: Vec<Binder> = vec![(id(1), None), (id(2), None), (id(3), None)];
+            targets[idx] = (t.clone(), hs.clone());
+            let mut vals = vec![V::Int(1), V::Int(2), V::Int(3)];
+            if rhs != "range" {
+                vals[idx] = x.clone();
+            }
+            let names: Vec<&T> = targets.iter().map(|(t, _)| t).collect();
+            let after = emit_types(&names);
+            let stmt = match rhs {
+                "temps" => E::LetTemps(targets.clone(), vals.iter().map(|v| E::Lit(v.clone())).collect()),
+                "list" => E::LetUnpack(targets.clone(), bx(E::Lit(V::List(vals)))),
+                "tuple" => E::LetUnpack(targets.clone(), bx(E::Lit(V::Tuple(vals)))),
+                "iter" => E::LetUnpack(targets.clone(), bx(E::Lit(V::Iter(vals)))),
+                "range" => E::LetUnpack(targets.clone(), bx(E::Lit(V::Range(1, 4)))),
+                _ => {
+                    funs.push(FunDef {
+                        params: ps(vec![(0, None), (1, None), (2, None)]),
+                        out: None,
+                        body: Body::Gen(vec![
+                            GStmt::Exec(em(10)),
+                            GStmt::Yld(E::Var(0)),
+                            GStmt::Exec(em(11)),
+                            GStmt::Yld(E::Var(1)),
+                            GStmt::Exec(em(12)),
+                            GStmt::Yld(E::Var(2)),
+                            GStmt::Exec(em(13)),
+                        ]),
+                    });
+                    E::LetUnpack(targets.clone(), bx(E::Call(bx(E::Lit(V::GenFn(2))), vals.iter().map(|v| E::Lit(v.clone())).collect())))
+                }
+            };
+            let mut items = vec![em(1), stmt, em(2)];
+            items.extend(after);
+            seq(items)
+        }
+        // fewer values than targets: the missing ones are null (and are still checked)
+        "multi-short" => {
+            let targets: Vec<Binder> = vec![(id(1), None), (T::Wild, hs.clone()), (id(3), hs.clone())];
+            seq(vec![
+                E::LetUnpack(targets, bx(E::Lit(V::List(vec![V::Int(1), x.clone()])))),
+                E::Emit(bx(E::TypeOf(bx(E::Var(3))))),
+            ])
+        }
+        "let" => seq(vec![em(1), E::Let(t.clone(), hs, bx(xv)), em(2)]),
+        "for1" => E::For(vec![(t.clone(), hs)], bx(E::Lit(V::List(vec![x.clone(), x.clone()]))), bx(em(1))),
+        "for2-first" => E::For(
+            vec![(t.clone(), hs), (id(1), None)],
+            bx(E::Lit(V::List(vec![V::Tuple(vec![x.clone(), V::Int(5)])]))),
+            bx(E::Emit(bx(E::Var(1)))),
+        ),
+        "for2-second" => E::For(
+            vec![(id(1), None), (t.clone(), hs)],
+            bx(E::Lit(V::List(vec![V::Tuple(vec![V::Int(5), x.clone()]), V::Tuple(vec![V::Int(6), x.clone()])]))),
+            bx(E::Emit(bx(E::Var(1)))),
+        ),
+        "for3-middle" => {
+            let names = [&id(1), &t, &id(3)];
+            let body = emit_types(&names);
+            E::For(
+                vec![(id(1), None), (t.clone(), hs), (id(3), Some(hint("Number", false)))],
+                bx(E::Lit(V::Tuple(vec![V::List(vec![V::Int(1), x.clone(), V::Int(3)])]))),
+                bx(seq(body)),
+            )
+        }
+        "arg" => {
+            funs.push(FunDef { params: vec![pb(t.clone(), hs), pb(id(1), None)], out: None, body: Body::Plain(seq(vec![em(1), E::Var(1)])) });
+            seq(vec![em(0), E::Call(bx(E::Lit(V::Fn(2))), vec![xv, lit_i(5)])])
+        }
+        "arg-nested-first" | "arg-nested-second" | "arg-nested-deep" => {
+            let (pat, arg) = match parts[0] {
+                "arg-nested-first" => (P::Tup(vec![pb(t.clone(), hs), pb(id(1), None)]), V::Tuple(vec![x.clone(), V::Int(5)])),
+                "arg-nested-second" => (P::Tup(vec![pb(id(1), Some(hint("Number", false))), pb(t.clone(), hs)]), V::List(vec![V::Int(5), x.clone()])),
+                _ => (
+                    P::Tup(vec![pb(id(1), None), P::Tup(vec![pb(t.clone(), hs), pb(T::Wild, None)])]),
+                    V::Tuple(vec![V::Int(5), V::Tuple(vec![x.clone(), V::Int(6)])]),
+                ),
+            };
+            let mut body = vec![em(1), E::Emit(bx(E::Var(1)))];
+            body.extend(emit_types(&[&t]));
+            body.push(E::Var(2));
+            funs.push(FunDef { params: vec![pb(T::WildNamed(9), Some(hint("Any", true))), pat, pb(id(2), None)], out: None, body: Body::Plain(seq(body)) });
+            seq(vec![em(0), E::Call(bx(E::Lit(V::Fn(2))), vec![E::Lit(V::Null), E::Lit(arg), lit_i(9)])])
+        }
+        "gen-arg" | "gen-arg-nested" => {
+            let pat = if parts[0] == "gen-arg" { pb(t.clone(), hs) } else { P::Tup(vec![pb(id(1), None), pb(t.clone(), hs)]) };
+            let arg = if parts[0] == "gen-arg" { x.clone() } else { V::Tuple(vec![V::Int(1), x.clone()]) };
+            funs.push(FunDef { params: vec![pat], out: None, body: Body::Gen(vec![GStmt::Exec(em(2)), GStmt::Yld(lit_i(1))]) });
+            seq(vec![
+                elet(Some(5), None, bx(E::Call(bx(E::Lit(V::GenFn(2))), vec![E::Lit(arg)]))),
+                em(1),
+                efor(vec![(Some(6), None)], bx(E::Var(5)), bx(em(3))),
+            ])
+        }
+        "catch-first" => E::Try(
+            bx(seq(vec![em(1), E::Throw(bx(xv))])),
+            vec![(t.clone(), h.clone(), em(10)), (T::Id(1), hint("Indexable", false), seq(vec![em(11), E::TypeOf(bx(E::Var(1)))]))],
+            T::WildNamed(2),
+            bx(em(12)),
+        ),
+        "match" => E::Match(vec![xv], vec![arm(vec![vec![pb(t.clone(), hs)]], None, em(10)), arm(vec![], None, em(11))]),
+        // `_: Number or F: H or _: String` with the hinted pattern in each alternative position
+        "match-or" => {
+            let p: usize = parts[1].parse().unwrap();
+            let mut alts = vec![vec![pb(T::Wild, Some(hint("Number", false)))], vec![pb(T::WildNamed(8), Some(hint("String", false)))]];
+            alts.insert(p, vec![pb(t.clone(), hs)]);
+            let mut body = vec![em(10)];
+            // a named id bound by a non-first alternative may not have been reached: not read
+            body.push(lit_s("arm1"));
+            E::Match(
+                vec![xv],
+                vec![arm(alts, None, seq(body)), arm(vec![vec![pb(T::Wild, Some(hint("Bool", true)))]], None, em(11)), arm(vec![], None, em(12))],
+            )
+        }
+        // two subjects; the hinted pattern in alternative `alt` at subject position `sub`
+        "match-multi" => {
+            let alt: usize = parts[1].parse().unwrap();
+            let sub: usize = parts[2].parse().unwrap();
+            let subjects = if sub == 0 { vec![xv, lit_i(5)] } else { vec![lit_i(5), xv] };
+            let mut mine = vec![pb(T::Wild, Some(hint("Number", false))), pb(T::Wild, Some(hint("Number", false)))];
+            mine[sub] = pb(t.clone(), hs);
+            let other = if alt == 0 {
+                // tried after mine: accepts strings at the hinted position
+                let mut o = vec![pb(T::Wild, Some(hint("Number", false))), pb(T::Wild, Some(hint("Number", false)))];
+                o[sub] = pb(T::WildNamed(8), Some(hint("String", false)));
+                o
+            } else {
+                // tried before mine: never matches (second subject is a number)
+                vec![pb(T::Wild, Some(hint("Qux", false))), pb(T::Wild, Some(hint("Qux", false)))]
+            };
+            let alts = if alt == 0 { vec![mine, other] } else { vec![other, mine] };
+            E::Match(subjects, vec![arm(alts, None, em(10)), arm(vec![vec![pb(T::Wild, None), pb(T::Wild, None)]], None, em(11))])
+        }
+        // `F: H, F: H or _: String, _: String` on `X, X`
+        "match-multi-pairs" => {
+            let second = match &t {
+                T::Id(_) => T::Id(8),
+                other => other.clone(),
+            };
+            E::Match(
+                vec![xv.clone(), xv],
+                vec![
+                    arm(
+                        vec![
+                            vec![pb(t.clone(), hs.clone()), pb(second, hs)],
+                            vec![pb(T::Wild, Some(hint("String", false))), pb(T::Wild, Some(hint("String", false)))],
+                            vec![pb(T::Wild, Some(hint("Number", false))), pb(T::Wild, Some(hint("Number", false)))],
+                        ],
+                        None,
+                        em(10),
+                    ),
+                    arm(vec![], None, em(11)),
+                ],
+            )
+        }
+        "match-nested-tuple" | "match-nested-list" => {
+            let subj = if parts[0] == "match-nested-tuple" { V::Tuple(vec![x.clone(), V::Int(1)]) } else { V::List(vec![x.clone(), V::Int(1)]) };
+            let mut body = vec![em(10), E::Emit(bx(E::Var(1)))];
+            body.extend(emit_types(&[&t]));
+            E::Match(
+                vec![E::Lit(subj)],
+                vec![
+                    arm(vec![vec![P::Tup(vec![pb(t.clone(), hs), pb(id(1), None)])]], None, seq(body)),
+                    arm(vec![vec![P::Tup(vec![pb(T::Wild, None), pb(id(2), Some(hint("Number", false)))])]], None, seq(vec![em(11), E::Var(2)])),
+                ],
+            )
+        }
+        "match-nested-deep" => E::Match(
+            vec![E::Lit(V::Tuple(vec![V::Int(1), V::List(vec![x.clone(), V::Int(2)])]))],
+            vec![
+                arm(
+                    vec![vec![P::Tup(vec![pb(id(1), None), P::Tup(vec![pb(t.clone(), hs), pb(id(3), Some(hint("Number", false)))])])]],
+                    None,
+                    seq(vec![em(10), E::Add(bx(E::Var(1)), bx(E::Var(3)))]),
+                ),
+                arm(vec![], None, em(11)),
+            ],
+        ),
+        // `(F: H, _) or (_, v2: Number)`: the second alternative takes over when the first fails
+        "match-nested-or" => E::Match(
+            vec![E::Lit(V::Tuple(vec![x.clone(), V::Int(4)]))],
+            vec![
+                arm(
+                    vec![
+                        vec![P::Tup(vec![pb(t.clone(), hs), pb(T::Wild, None)])],
+                        vec![P::Tup(vec![pb(T::WildNamed(8), Some(hint("String", true))), pb(T::Wild, Some(hint("Number", false)))])],
+                    ],
+                    None,
+                    em(10),
+                ),
+                arm(vec![], None, em(11)),
+            ],
+        ),
+        // a false guard passes on to the next *arm*, not to the next alternative
+        "match-or-guard" => seq(vec![
+            elet(Some(5), None, bx(E::Lit(V::Bool(false)))),
+            E::Match(
+                vec![xv],
+                vec![
+                    arm(vec![vec![pb(t.clone(), hs.clone())], vec![pb(T::Wild, Some(hint("Any", false)))]], Some(E::Var(5)), em(10)),
+                    arm(vec![vec![pb(T::Wild, Some(hint("Qux", false)))], vec![pb(T::WildNamed(8), hs)]], Some(E::Lt(bx(lit_i(1)), bx(lit_i(2)))), em(11)),
+                    arm(vec![], None, em(12)),
+                ],
+            ),
+        ]),
+        // wrong size: a nested pattern with three elements never matches a pair
+        "match-nested-size" => E::Match(
+            vec![E::Lit(V::Tuple(vec![x.clone(), V::Int(1)]))],
+            vec![
+                arm(vec![vec![P::Tup(vec![pb(T::Wild, hs.clone()), pb(T::Wild, None), pb(T::Wild, None)])]], None, em(10)),
+                arm(vec![vec![P::Tup(vec![pb(id(1), hs), pb(id(2), None)])]], None, seq(vec![em(11), E::Var(2)])),
+                arm(vec![], None, em(12)),
+            ],
+        ),
+        "match-guard-true" | "match-guard-false" => seq(vec![
+            elet(Some(5), None, bx(E::Lit(V::Bool(parts[0] == "match-guard-true")))),
+            E::Match(
+                vec![xv],
+                vec![
+                    arm(vec![vec![pb(t.clone(), hs.clone())]], Some(E::Var(5)), em(10)),
+                    arm(vec![vec![pb(T::WildNamed(8), hs)]], None, em(11)),
+                    arm(vec![], None, em(12)),
+                ],
+            ),
+        ]),
+        other => panic!("unknown form position {}", other),
     };
     Prog { funs, main }
 }
@@ -1647,19 +2098,37 @@ impl<'a> PGen<'a> {
         s
     }
 
+    /// a target of kind `k`: mostly a named id (added to the scope), sometimes `_` or `_wN`
+    fn target(&mut self, k: K, sc: &mut Scope, p_wild: u32) -> T {
+        let x = self.fresh();
+        if self.rng.chance(p_wild, 100) {
+            if self.rng.chance(1, 2) { T::Wild } else { T::WildNamed(x) }
+        } else {
+            sc.vars.push((x, k));
+            T::Id(x)
+        }
+    }
+
+    /// hint for a target; a wildcard without a hint is only allowed where the syntax has it
+    fn target_hint(&mut self, k: K, t: &T, must: bool) -> Option<Hint> {
+        if must || !matches!(t, T::Id(_)) && self.rng.chance(9, 10) { Some(self.hint_for(k)) } else { self.maybe_hint(k) }
+    }
+
     fn stmt(&mut self, sc: &mut Scope) -> Option<E> {
         let deep = sc.depth > 0;
-        let w: [u32; 10] = [
+        let w: [u32; 12] = [
             5,                                  // 0 let new
             2,                                  // 1 reassign
             3,                                  // 2 emit
             if deep { 2 } else { 0 },           // 3 if
             if deep { 3 } else { 0 },           // 4 for
-            if deep { 3 } else { 0 },           // 5 match
+            if deep { 4 } else { 0 },           // 5 match
             if deep { 3 } else { 0 },           // 6 try
             2,                                  // 7 call statement
             if sc.frozen > 0 || sc.ret.is_some() { 1 } else { 0 }, // 8 throw (inside try / functions)
             if sc.ret.is_some() && deep { 1 } else { 0 },          // 9 conditional return
+            3,                                  // 10 multi-assignment
+            1,                                  // 11 let with a wildcard target
         ];
         match self.rng.weighted(&w) {
             0 => {
@@ -1668,7 +2137,7 @@ impl<'a> PGen<'a> {
                 let x = self.fresh();
                 let h = self.maybe_hint(k);
                 sc.vars.push((x, k));
-                Some(E::Let(Some(x), h, bx(e)))
+                Some(E::Let(T::Id(x), h, bx(e)))
             }
             1 => {
                 let cands: Vec<(u32, K)> = sc.vars.iter().skip(sc.frozen).filter(|(_, k)| *k != K::Any).cloned().collect();
@@ -1678,7 +2147,7 @@ impl<'a> PGen<'a> {
                 let (x, k) = *self.rng.pick(&cands);
                 let e = self.expr(k, sc, 2);
                 let h = self.maybe_hint(k);
-                Some(E::Let(Some(x), h, bx(e)))
+                Some(E::Let(T::Id(x), h, bx(e)))
             }
             2 => {
                 let k = if sc.vars.is_empty() || self.rng.chance(1, 3) { self.kind() } else { self.rng.pick(&sc.vars).1 };
@@ -1705,7 +2174,7 @@ impl<'a> PGen<'a> {
                     let k = self.sigs[i].ret;
                     let h = self.maybe_hint(k);
                     sc.vars.push((x, k));
-                    Some(E::Let(Some(x), h, bx(c)))
+                    Some(E::Let(T::Id(x), h, bx(c)))
                 } else {
                     Some(c)
                 }
@@ -1717,7 +2186,7 @@ impl<'a> PGen<'a> {
                 let m = self.mark();
                 Some(E::If(bx(c), bx(E::Throw(bx(v))), bx(m)))
             }
-            _ => {
+            9 => {
                 let k = sc.ret.unwrap_or(K::Int);
                 let k = if self.wrong() { self.kind() } else { k };
                 let c = self.expr(K::Bool, sc, 1);
@@ -1725,6 +2194,78 @@ impl<'a> PGen<'a> {
                 let m = self.mark();
                 Some(E::If(bx(c), bx(E::Ret(bx(v))), bx(m)))
             }
+            10 => Some(self.multi_assign(sc)),
+            _ => {
+                let k = self.kind();
+                let e = self.expr(k, sc, 2);
+                let x = self.fresh();
+                let t = if self.rng.chance(1, 2) { T::Wild } else { T::WildNamed(x) };
+                Some(E::Let(t, Some(self.hint_for(k)), bx(e)))
+            }
+        }
+    }
+
+    /// `let a: T, _: U, c = …` with the right-hand side as separate expressions or as one iterable
+    /// (list, tuple, range, string, generator call); new names only (plus wildcards)
+    fn multi_assign(&mut self, sc: &mut Scope) -> E {
+        let n = 2 + self.rng.below(3);
+        let gens: Vec<usize> = (0..sc.callable).filter(|i| self.sigs[*i].is_gen).collect();
+        let form = self.rng.below(100);
+        // element kinds and right-hand side
+        let (kinds, rhs): (Vec<K>, Result<Vec<E>, E>) = if form < 35 {
+            let kinds: Vec<K> = (0..n).map(|_| self.kind()).collect();
+            let es = kinds.iter().map(|k| self.expr(*k, sc, 1)).collect();
+            (kinds, Ok(es))
+        } else if form < 50 && !gens.is_empty() {
+            let i = *self.rng.pick(&gens);
+            let k = self.sigs[i].ret;
+            ((0..n).map(|_| K::Any).map(|_| k).collect(), Err(self.call(i, sc, 1)))
+        } else if form < 60 {
+            ((0..n).map(|_| K::Int).collect(), Err(E::Lit(V::Range(0, self.rng.range(0, 4)))))
+        } else if form < 66 {
+            ((0..n).map(|_| K::Str).collect(), Err(E::Lit(V::Str("hey".into()))))
+        } else {
+            let kinds: Vec<K> = (0..n).map(|_| self.kind()).collect();
+            // sometimes shorter / longer than the targets (missing values are null)
+            let m = match self.rng.below(6) {
+                0 => n - 1,
+                1 => n + 1,
+                _ => n,
+            };
+            let mut xs = vec![];
+            for j in 0..m {
+                let k = if j < n { kinds[j] } else { K::Int };
+                xs.push(self.value(k, sc));
+            }
+            let v = match self.rng.below(3) {
+                0 => V::Tuple(xs),
+                1 => V::Iter(xs),
+                _ => V::List(xs),
+            };
+            (kinds, Err(E::Lit(v)))
+        };
+        // the values may be missing (range/string/generator shorter than the targets): such targets
+        // are null at run time, so they are not recorded with their kind
+        let exact = matches!(rhs, Ok(_));
+        let mut bs = vec![];
+        let mut new_vars = vec![];
+        for k in &kinds {
+            let x = self.fresh();
+            let t = match self.rng.below(10) {
+                0 | 1 => T::Wild,
+                2 | 3 => T::WildNamed(x),
+                _ => {
+                    new_vars.push((x, if exact { *k } else { K::Any }));
+                    T::Id(x)
+                }
+            };
+            let h = if matches!(t, T::Id(_)) { self.maybe_hint(*k) } else if self.rng.chance(4, 5) { Some(self.hint_for(*k)) } else { None };
+            bs.push((t, h));
+        }
+        sc.vars.extend(new_vars);
+        match rhs {
+            Ok(es) => E::LetTemps(bs, es),
+            Err(e) => E::LetUnpack(bs, bx(e)),
         }
     }
 
@@ -1732,36 +2273,41 @@ impl<'a> PGen<'a> {
         let mut isc = self.inner(sc);
         let gens: Vec<usize> = (0..sc.callable).filter(|i| self.sigs[*i].is_gen).collect();
         let r = self.rng.below(100);
-        let x = self.fresh();
         let (binders, it): (Vec<Binder>, E) = if r < 30 && !gens.is_empty() {
             let i = *self.rng.pick(&gens);
             let ek = self.sigs[i].ret;
-            isc.vars.push((x, ek));
-            (vec![(Some(x), self.maybe_hint(ek))], self.call(i, sc, 1))
+            let t = self.target(ek, &mut isc, 15);
+            let h = self.target_hint(ek, &t, false);
+            (vec![(t, h)], self.call(i, sc, 1))
         } else if r < 50 {
-            // two arguments unpacking tuples
-            let (ka, kb) = (self.kind(), self.kind());
+            // two or three arguments unpacking tuples
+            let m = 2 + self.rng.below(2);
+            let kinds: Vec<K> = (0..m).map(|_| self.kind()).collect();
             let n = self.rng.below(3);
             let mut rows = vec![];
             for _ in 0..n {
-                let a = if self.wrong() { self.kind() } else { ka };
-                rows.push(V::Tuple(vec![self.value(a, sc), self.value(kb, sc)]));
+                let mut row = vec![];
+                for k in &kinds {
+                    let k = if self.wrong() { self.kind() } else { *k };
+                    row.push(self.value(k, sc));
+                }
+                rows.push(V::Tuple(row));
             }
-            let y = self.fresh();
-            isc.vars.push((x, ka));
-            let second = if self.rng.chance(1, 4) {
-                (None, self.maybe_hint(kb))
-            } else {
-                isc.vars.push((y, kb));
-                (Some(y), self.maybe_hint(kb))
-            };
-            (vec![(Some(x), self.maybe_hint(ka)), second], E::Lit(V::List(rows)))
+            let mut bs = vec![];
+            for k in &kinds {
+                let t = self.target(*k, &mut isc, 30);
+                let h = self.target_hint(*k, &t, false);
+                bs.push((t, h));
+            }
+            (bs, E::Lit(V::List(rows)))
         } else if r < 60 {
-            isc.vars.push((x, K::Int));
-            (vec![(Some(x), self.maybe_hint(K::Int))], E::Lit(V::Range(0, self.rng.range(0, 3))))
+            let t = self.target(K::Int, &mut isc, 15);
+            let h = self.target_hint(K::Int, &t, false);
+            (vec![(t, h)], E::Lit(V::Range(0, self.rng.range(0, 3))))
         } else if r < 68 {
-            isc.vars.push((x, K::Str));
-            (vec![(Some(x), self.maybe_hint(K::Str))], E::Lit(V::Str("hey".into())))
+            let t = self.target(K::Str, &mut isc, 15);
+            let h = self.target_hint(K::Str, &t, false);
+            (vec![(t, h)], E::Lit(V::Str("hey".into())))
         } else {
             let ek = self.kind();
             let n = self.rng.below(4);
@@ -1771,53 +2317,83 @@ impl<'a> PGen<'a> {
                 xs.push(self.value(k, sc));
             }
             let it = if self.rng.chance(1, 2) { V::List(xs) } else { V::Tuple(xs) };
-            if self.rng.chance(1, 6) {
-                (vec![(None, Some(self.hint_for(ek)))], E::Lit(it))
-            } else {
-                isc.vars.push((x, ek));
-                (vec![(Some(x), self.maybe_hint(ek))], E::Lit(it))
-            }
+            let t = self.target(ek, &mut isc, 20);
+            let h = self.target_hint(ek, &t, false);
+            (vec![(t, h)], E::Lit(it))
         };
         let k = self.kind();
         let body = self.marked_block(&isc, k);
         E::For(binders, bx(it), bx(body))
     }
 
+    /// a pattern for a subject of kind `k`; `hk`: the kind whose hint is used (≠ k: falls through)
+    fn pattern(&mut self, k: K, hk: K, asc: &mut Scope) -> P {
+        match self.rng.below(12) {
+            0 if k == K::Int => P::Lit(self.rng.range(0, 9)),
+            1..=4 => {
+                let x = self.fresh();
+                let t = if self.rng.chance(1, 2) { T::Wild } else { T::WildNamed(x) };
+                P::B(t, Some(self.hint_for(hk)))
+            }
+            5 => P::B(T::Wild, None),
+            _ => {
+                let x = self.fresh();
+                asc.vars.push((x, k));
+                let h = if self.rng.chance(5, 6) { Some(self.hint_for(hk)) } else { None };
+                P::B(T::Id(x), h)
+            }
+        }
+    }
+
+    /// a subject expression with statically known element kinds, and a pattern builder for it
     fn match_expr(&mut self, sc: &Scope) -> E {
-        let k = self.kind();
-        let s = self.expr(k, sc, 1);
         let isc = self.inner(sc);
         let rk = self.kind();
+        // shape of the subject(s): one value, several values, or one tuple/list (nested pattern)
+        let shape = self.rng.below(10);
+        let n_sub = if shape < 5 { 1 } else if shape < 8 { 2 + self.rng.below(2) } else { 1 };
+        let nested = shape >= 8;
+        let kinds: Vec<K> = if nested { (0..2 + self.rng.below(2)).map(|_| self.kind()).collect() } else { (0..n_sub).map(|_| self.kind()).collect() };
+        let subjects: Vec<E> = if nested {
+            let xs: Vec<V> = kinds.iter().map(|k| self.value(*k, sc)).collect();
+            vec![E::Lit(if self.rng.chance(1, 2) { V::Tuple(xs) } else { V::List(xs) })]
+        } else {
+            kinds.iter().map(|k| self.expr(*k, sc, 1)).collect()
+        };
         let mut arms = vec![];
         let n = 1 + self.rng.below(3);
         for _ in 0..n {
-            // mostly hints of other kinds first (fall through), then the matching one
-            let hk = if self.rng.chance(1, 2) { k } else { self.kind() };
-            let h = self.hint_for(hk);
             let mut asc = isc.clone();
-            let pat = match self.rng.below(10) {
-                0 if k == K::Int => Pat::Lit(self.rng.range(0, 9)),
-                1..=3 => Pat::Wild(Some(h)),
-                _ => {
-                    let x = self.fresh();
-                    asc.vars.push((x, k));
-                    Pat::Bind(x, Some(h))
+            let n_alts = *self.rng.pick(&[1usize, 1, 2, 2, 3]);
+            let mut alts = vec![];
+            for _ in 0..n_alts {
+                // each alternative: mostly the right hints, sometimes a hint of another kind
+                let mut pats = vec![];
+                for k in &kinds {
+                    let hk = if self.rng.chance(2, 3) { *k } else { self.kind() };
+                    // variables bound in alternatives are only safe to read when bound in all of
+                    // them; keep it simple: alternatives of an `or` arm bind nothing that is read
+                    let mut scratch = asc.clone();
+                    let p = if n_alts > 1 { self.pattern(*k, hk, &mut scratch) } else { self.pattern(*k, hk, &mut asc) };
+                    pats.push(p);
                 }
-            };
-            arms.push((pat, self.marked_block(&asc, rk)));
+                if nested {
+                    // sometimes the wrong size
+                    if pats.len() >= 3 && self.rng.chance(1, 6) {
+                        pats.pop();
+                    }
+                    alts.push(vec![P::Tup(pats)]);
+                } else {
+                    alts.push(pats);
+                }
+            }
+            let guard = if self.rng.chance(1, 4) { Some(self.expr(K::Bool, &asc, 1)) } else { None };
+            arms.push(Arm { alts, guard, body: self.marked_block(&asc, rk) });
         }
         if self.rng.chance(7, 10) {
-            let mut asc = isc.clone();
-            let pat = if self.rng.chance(1, 2) {
-                Pat::Wild(None)
-            } else {
-                let x = self.fresh();
-                asc.vars.push((x, k));
-                Pat::Bind(x, None)
-            };
-            arms.push((pat, self.marked_block(&asc, rk)));
+            arms.push(Arm { alts: vec![], guard: None, body: self.marked_block(&isc, rk) });
         }
-        E::Match(bx(s), arms)
+        E::Match(subjects, arms)
     }
 
     fn try_expr(&mut self, sc: &Scope) -> E {
@@ -1831,25 +2407,20 @@ impl<'a> PGen<'a> {
             let name = *self.rng.pick(&["String", "Number", "Foo", "Bar", "Null", "Any", "Indexable", "Qux", "Object"]);
             let h = Hint { name: name.to_string(), opt: self.rng.chance(1, 5) };
             let mut csc = isc.clone();
-            let y = if self.rng.chance(3, 4) {
-                let y = self.fresh();
-                csc.vars.push((y, K::Any));
-                Some(y)
-            } else {
-                None
-            };
+            let y = self.target(K::Any, &mut csc, 35);
             typed.push((y, h, self.marked_block(&csc, k)));
         }
         let mut csc = isc.clone();
-        let x = if self.rng.chance(3, 4) {
-            let x = self.fresh();
-            csc.vars.push((x, K::Any));
-            Some(x)
-        } else {
-            None
-        };
+        let x = self.target(K::Any, &mut csc, 30);
         let fin = self.marked_block(&csc, k);
         E::Try(bx(body), typed, x, bx(fin))
+    }
+
+    /// a function parameter of kind `k`: id, wildcard or (for tuples) a nested pattern
+    fn param(&mut self, k: K, sc: &mut Scope) -> P {
+        let t = self.target(k, sc, 15);
+        let h = self.target_hint(k, &t, false);
+        P::B(t, h)
     }
 
     fn program(&mut self) -> Prog {
@@ -1864,9 +2435,14 @@ impl<'a> PGen<'a> {
             let mut sc = Scope { vars: vec![], frozen: 0, ret: if is_gen { None } else { Some(ret) }, callable: i, depth: 2 };
             let mut ps = vec![];
             for pk in &params {
-                let x = self.fresh();
-                sc.vars.push((x, *pk));
-                ps.push((x, self.maybe_hint(*pk)));
+                if *pk == K::Tuple && self.rng.chance(2, 3) {
+                    // `value(K::Tuple)` is `(Int, Str)`: unpack it as a nested argument
+                    let a = self.param(K::Int, &mut sc);
+                    let b = self.param(K::Str, &mut sc);
+                    ps.push(P::Tup(vec![a, b]));
+                } else {
+                    ps.push(self.param(*pk, &mut sc));
+                }
             }
             let out = self.maybe_hint(ret);
             let body = if is_gen {
@@ -2127,6 +2703,15 @@ fn main() {
     }
     kvh::quiet_panics();
     let args = Args::parse();
+    if let Some(i) = args.extra.iter().position(|x| x == "--dump-random") {
+        let n: usize = args.extra.get(i + 1).and_then(|x| x.parse().ok()).unwrap_or(3);
+        let mut rng = Rng::new(args.seed);
+        for _ in 0..n {
+            let p = random_program(&mut rng);
+            println!("-----\n{}", render(&p).unwrap_or_else(|| "<unrenderable>".into()));
+        }
+        return;
+    }
     let mut rep = Report::new("C16", &args);
     rep.rule = "cases: (1) bounded-exhaustive grid hint position × hint name (built-in, special, user @type, unknown; with and without `?`) × value (every kind, objects with @type/@base chains); (2) type name / callable / indexable / iterable of every grid value via the KValue API; (3) seeded random programs of the mini language; every case is run on the real runtime with enable_type_checks on and off and on the Lean model with checks true and false. distinct = distinct request lines; non-trivial = the program contains at least one type hint".into();
     let drv = Driver::spawn(&args.driver);
@@ -2220,6 +2805,29 @@ fn main() {
         }
     }
     cx.flush();
+    // second grid: target forms × positions, on a reduced value set
+    let form_value_names = [
+        "null", "bool", "int", "float", "string", "range", "list", "tuple", "map", "function", "iterator", "host",
+        "obj-Foo", "obj-notype", "chain-d2-Foo@2-Bar", "obj-base-int",
+    ];
+    let form_values: Vec<(String, V)> = values.iter().filter(|(n, _)| form_value_names.contains(&n.as_str())).cloned().collect();
+    let fpos = form_positions();
+    for pos in &fpos {
+        for name in &names {
+            for opt in [false, true] {
+                let h = hint(name, opt);
+                for (vn, v) in &form_values {
+                    if pos.starts_with("multi:range") && vn != "int" {
+                        continue; // the values come from the range, not from the grid
+                    }
+                    let p = form_template(pos, &h, v);
+                    cx.push(&format!("forms:{}:{}{}:{}", pos, name, if opt { "?" } else { "" }, vn), &p);
+                    n_grid += 1;
+                }
+            }
+        }
+    }
+    cx.flush();
     // deeper chains on the two cheapest positions (one assert, one check) with the names that matter
     let chain_names = ["Foo", "Bar", "Baz", "Object", "Map", "Number", "String", "Any", "Indexable", "Callable"];
     for pos in ["let", "match-bind", "catch", "arg"] {
@@ -2241,7 +2849,7 @@ fn main() {
     cx.rep.exhaustive = true;
     cx.rep.extra.insert(
         "exhaustive_space".into(),
-        json!({"positions": POSITIONS, "hint_names": names, "optional": [false, true],
+        json!({"positions": POSITIONS, "form_positions": fpos, "form_values": form_value_names, "hint_names": names, "optional": [false, true],
                "values": values.iter().map(|(n, _)| n.clone()).collect::<Vec<_>>(),
                "extra_chain_values": chains.len(), "grid_programs": n_grid}),
     );
